@@ -9,7 +9,7 @@ from vlib.simharness import Harness, RefSim, enc_ref, enc_obs
 
 ID = "C03"
 RULE = ("Hypothesis (program, segmentation) pairs: program as in C02 without illegal requests; segmentation = "
-        "<=8 pieces run_up_to / run_up_to_including / step / pause_after(k)+{start,bounded run}, whose bounds are "
+        "<=8 pieces run_up_to / run_up_to_including / step / pause_after(k)+{start,bounded run} (+ in ~3% of the cases one stop() issued by a TIME_CHANGED listener at the n-th clock change), whose bounds are "
         "resolved against the reference state: time of the next / k-th pending event (exact cut on an event time, "
         "ties included), midpoint to the next event, the clock itself, a fraction of the remaining horizon, the "
         "warm-up time, the end, beyond the end, before the clock (optionally as values of the other numeric type: x.5 floats on an int clock, whole ints on a float clock); optionally after an earlier replication of another length on the same simulator; always completed by start(). Oracle: (i) per "
@@ -62,7 +62,31 @@ def _piece():
     )
 
 
+def _tc_piece():
+    # a stop() issued by a TIME_CHANGED listener at the n-th change of the clock (costs pydsol's 1-second grace
+    # loop, because the stop comes from the run thread itself: at most one per case, in a few per cent of the cases)
+    bounded = st.tuples(st.sampled_from(["run_up_to", "run_up_to_incl"]), _SEL).map(list)
+    starter = st.one_of(st.just(["start"]), st.just(["start"]), bounded)
+    return st.tuples(st.just("tc_stop"), st.integers(1, 4), starter).map(list)
+
+
+def _with_tc(t):
+    case, tc, pos, _unused = t
+    # (Hypothesis draws small values far more often than 1/30: the selector is a hash of the generated case itself)
+    import json
+    import zlib
+    if zlib.crc32(json.dumps(case, sort_keys=True).encode()) % 32 == 7:
+        pieces = list(case["pieces"])
+        pieces.insert(pos % (len(pieces) + 1), tc)
+        case = dict(case, pieces=pieces)
+    return case
+
+
 def strategy(tier):
+    return st.tuples(_strategy0(tier), _tc_piece(), st.integers(0, 8), st.sampled_from(list(range(30)))).map(_with_tc)
+
+
+def _strategy0(tier):
     prog = progs.program_strategy(max_nodes=16 if tier == "quick" else 30, illegal=False, cap=150)
     return st.fixed_dictionaries({"prog": prog, "pieces": st.lists(_piece(), min_size=1, max_size=8),
                                   # bounds of the other numeric type (float bounds between the ticks of an int
@@ -200,7 +224,7 @@ def run_case(case):
                 cpiece = ["start"]
                 if not was_ended:
                     ref.run()
-            elif kind == "pause_after":
+            elif kind in ("pause_after", "tc_stop"):
                 starter = piece[2]
                 if starter[0] == "start":
                     cst = ["start"]
@@ -217,22 +241,30 @@ def run_case(case):
                         nbounded += 1
                         if b == ref.end and not incl:
                             exclusive_end_cut = True
-                    r = ref.run(b, incl, max_events=piece[1])
-                    if r == "count":
-                        gate = len(ref.trace) - 1
-                        feats.add("pause")
-                cpiece = ["pause_after", gate, cst]
+                    if kind == "tc_stop":
+                        r = ref.run(b, incl, stop_at_time_change=piece[1])
+                        if r == "count":
+                            feats.add("pause")
+                            out.label("stop-from-TIME_CHANGED-listener")
+                    else:
+                        r = ref.run(b, incl, max_events=piece[1])
+                        if r == "count":
+                            gate = len(ref.trace) - 1
+                            feats.add("pause")
+                cpiece = ["pause_after", gate, cst] if kind == "pause_after" else ["tc_stop", piece[1], cst]
             concrete.append(cpiece)
             # ---- drive the SUT
             if cpiece[0] == "pause_after":
                 err = h.start_pause_after(cpiece[1], cpiece[2])
+            elif cpiece[0] == "tc_stop":
+                err = h.start_stop_at_time_change(cpiece[1], cpiece[2])
             else:
                 err = h.run_piece(cpiece)
             sim = h.sim
             ctx = {"piece": pi, "concrete": cpiece}
             mixed = other and any(isinstance(x, (int, float)) and not isinstance(x, bool) and
                                   isinstance(x, float) == (ck == "int")
-                                  for x in (cpiece[1:2] if cpiece[0] != "pause_after" else cpiece[2][1:2]))
+                                  for x in (cpiece[1:2] if cpiece[0] not in ("pause_after", "tc_stop") else cpiece[2][1:2]))
             if mixed and err is not None and not expect_refusal:
                 # a bound of the other numeric type that the simulator refuses: not judged (the property does not
                 # promise that such a bound is accepted) - the case ends here
